@@ -244,6 +244,9 @@ def gen_attr_value(rng, tkey, aname, info, objs_by_type, all_objs):
             n = g_count(rng)
             if info['md'] and rng.random() < 0.4:
                 w = rng.choice([1, 2, 3])
+                if rng.random() < 0.4:
+                    w2 = rng.choice([1, 2])
+                    return r_list([r_list([r_list([g_number(rng, info) for _ in range(w2)]) for _ in range(w)]) for _ in range(min(n, 4))])
                 return r_list([r_list([g_number(rng, info) for _ in range(w)]) for _ in range(min(n, 6))])
             return r_list([g_number(rng, info) for _ in range(n)]) if rng.random() < 0.9 else g_number(rng, info)
         return g_number(rng, info)
@@ -322,13 +325,19 @@ def sanitize(rng, tkey, kw, A, objs_by_type):
         if 'values' in kw:
             vals = _inner(kw['values'])
             if vals is not None and vals['t'] == 'list':
-                flat_only = [x for x in vals['v'] if x['t'] != 'list']
-                vals['v'] = flat_only
-                proto = (lambda: dict(vals['v'][0])) if vals['v'] else num
-                n = nz if nz is not None else 1
-                _resize(rng, kw['values'], n, proto)
-                if tkey == 'parameter' and len({x['t'] for x in vals['v']}) > 1:
-                    vals['v'] = [dict(vals['v'][0]) for _ in vals['v']]
+                if nz is not None and nz >= 1 and rng.random() < 0.5:
+                    # one regular block of numbers per zone: shape [nz, a] or [nz, a, b]
+                    a, b = rng.choice([1, 2, 3]), rng.choice([None, None, 2])
+                    blk = (lambda: r_list([num() for _ in range(a)])) if b is None else (lambda: r_list([r_list([num() for _ in range(b)]) for _ in range(a)]))
+                    vals['v'] = [blk() for _ in range(nz)]
+                else:
+                    flat_only = [x for x in vals['v'] if x['t'] != 'list']
+                    vals['v'] = flat_only
+                    proto = (lambda: dict(vals['v'][0])) if vals['v'] else num
+                    n = nz if nz is not None else 1
+                    _resize(rng, kw['values'], n, proto)
+                    if tkey == 'parameter' and len({x['t'] for x in vals['v']}) > 1:
+                        vals['v'] = [dict(vals['v'][0]) for _ in vals['v']]
     if tkey == 'calibration_coefficient':
         n = rng.choice([0, 1, 2, 5])
         for a in ('coefficients', 'references', 'plus_tolerances', 'minus_tolerances'):
@@ -336,12 +345,21 @@ def sanitize(rng, tkey, kw, A, objs_by_type):
                 _resize(rng, kw[a], n, num)
     if tkey == 'calibration_measurement':
         n = rng.choice([1, 2, 3])
+        shape = rng.choice([None, None, (2,), (2, 2), (3, 1)])
+        def blk():
+            if shape is None:
+                return num()
+            if len(shape) == 1:
+                return r_list([num() for _ in range(shape[0])])
+            return r_list([r_list([num() for _ in range(shape[1])]) for _ in range(shape[0])])
         for a in ('maximum_deviation', 'standard_deviation', 'standard', 'plus_tolerance', 'minus_tolerance', 'measurement', 'reference'):
             if a in kw:
                 inner = _inner(kw[a])
-                if inner is not None and inner['t'] == 'list':
-                    inner['v'] = [x for x in inner['v'] if x['t'] != 'list']
-                _resize(rng, kw[a], n, num)
+                if inner is None:
+                    continue
+                if inner['t'] != 'list':
+                    one = dict(inner); inner.clear(); inner.update({'t': 'list', 'v': [one]})
+                inner['v'] = [blk() for _ in range(n)]
     if tkey == 'splice':
         ic, z = _inner(kw.get('input_channels')), _inner(kw.get('zones'))
         if ic is not None and z is not None and ic['t'] == 'list' and z['t'] == 'list':
@@ -372,10 +390,12 @@ SET_KINDS = ['axis', 'long_name', 'zone', 'equipment', 'parameter', 'computation
              'calibration_measurement', 'calibration', 'splice', 'path', 'group', 'message', 'comment', 'no_format', 'well_reference_point']
 
 
-def gen_spec(rng, n_objects=None, vrl=None, types=None, multi_set=True, with_units=True, n_frames=1):
+def gen_spec(rng, n_objects=None, vrl=None, types=None, multi_set=True, with_units=True, n_frames=1, explicit_origins=None):
     """A mostly-valid single-logical-file specification touching many object types."""
     A = api()
     vrl = vrl or rng.choice([64, 128, 256, 1024, 8192, 8192, 16384])
+    if explicit_origins is None:
+        explicit_origins = rng.random() < 0.4
     ops = []
     objs_by_type = {}
     all_objs = []
@@ -415,8 +435,15 @@ def gen_spec(rng, n_objects=None, vrl=None, types=None, multi_set=True, with_uni
         kw['file_set_number'] = r_int(rng.randrange(1, 2**20))
         kw['creation_time'] = g_dt(rng) if rng.random() < 0.5 else g_dt_str(rng)
         kw.pop('origin_reference', None)
-        ops.append({'op': 'origin', 'name': g_name(rng), 'kw': kw, 'origin': rng.choice([None, None, 1, 5, 200, 20000]), 'set_name': None})
+        ref = rng.choice([None, None, 1, 5, 200, 20000])
+        while ref is not None and ref in origin_refs:
+            ref += 1
+        origin_refs.append(ref if ref is not None else len(origin_refs))
+        ops.append({'op': 'origin', 'name': g_name(rng), 'kw': kw, 'origin': ref, 'set_name': None})
         new_obj('origin')
+    origin_refs = []
+    n_origins = rng.choice([1, 1, 1, 2, 3])
+    planned_refs = [rng.choice([3, 7, 40]) for _ in range(2)]
     if origin_first:
         add_origin()
     n_objects = n_objects if n_objects is not None else rng.randrange(0, 14)
@@ -424,9 +451,16 @@ def gen_spec(rng, n_objects=None, vrl=None, types=None, multi_set=True, with_uni
     for _ in range(n_objects):
         tkey = rng.choice(kinds)
         kw = kwargs_for(tkey, rng.choice([0.0, 0.3, 0.7, 1.0]))
-        sn = rng.choice([None, None, None, 'S1', 'S2']) if multi_set else None
-        ops.append({'op': 'add', 'type': tkey, 'name': g_name(rng), 'kw': kw, 'set_name': sn, 'origin': None})
+        sn = rng.choice([None, None, None, 'S1', 'S2', '']) if multi_set else None
+        org = None
+        if explicit_origins and rng.random() < 0.3:
+            org = rng.choice(origin_refs + planned_refs) if (origin_refs or planned_refs) else None
+            if org == 0:
+                org = None
+        ops.append({'op': 'add', 'type': tkey, 'name': g_name(rng), 'kw': kw, 'set_name': sn, 'origin': org})
         new_obj(tkey)
+        if len(origin_refs) < n_origins and origin_refs and rng.random() < 0.3:
+            add_origin()
     # channels and frames
     chans = []
     for f in range(n_frames):
@@ -448,6 +482,19 @@ def gen_spec(rng, n_objects=None, vrl=None, types=None, multi_set=True, with_uni
         new_obj('frame')
     if not origin_first:
         add_origin()
+        if rng.random() < 0.3:
+            # a later origin that takes one of the references used explicitly above
+            kw = {'file_set_number': r_int(9), 'creation_time': r_str('2021/01/01 00:00:00')}
+            r = rng.choice(planned_refs)
+            if r not in origin_refs:
+                origin_refs.append(r)
+                ops.append({'op': 'origin', 'name': 'LATE-ORIGIN', 'kw': kw, 'origin': r, 'set_name': None})
+                new_obj('origin')
+    # explicit origin references must name an origin of the logical file (input-domain decision, DESIGN 6)
+    real = {r for r in origin_refs if r}
+    for op in ops:
+        if op['op'] != 'origin' and op.get('origin') is not None and op['origin'] not in real:
+            op['origin'] = None
     return {'sul': {'ident': 'MAIN-STORAGE-UNIT', 'seq': 1, 'vrl': vrl},
             'lfs': [{'fh_id': rng.choice(['FILE-HEADER', 'H', 'x' * 65, '']), 'fh_seq': rng.choice([1, 7, 9999999999]), 'ops': ops}]}
 
